@@ -249,8 +249,9 @@ From SqfsV Require Import CompOpt.GenCompOpt CompOpt.Model CompOpt.Parse CompOpt
    For every configuration create accepts (block size one a super block can carry): write_options writes nothing
    exactly for the defaults, else exactly the block doc/format.adoc describes ([fmt_block (fmt_payload st)]: 16 bit
    header with bit 15 set, little endian fields); the reading side (default uncompressor for the same id and block
-   size, as every tool creates it) accepts that block, recovers every option field the block carries ([kept]: gzip
-   level / window / strategies, xz dictionary size / filters) and ends in a configuration create accepts again.
+   size, as every tool creates it) accepts that block, recovers the option fields listed in [kept] (gzip level / window /
+   strategies, xz dictionary size / filters; [kept] is EMPTY for lz4 and zstd: their level / HC flag are read but dropped by the C
+   code on the reading side, shown as an example, so nothing is claimed for them - independent audit 3, C2) and ends in a configuration create accepts again.
    When nothing is written the reader's defaults are the writer's values. *)
 Theorem comp_options_rt : forall fx avail c st pre tail,
   compressor_create fx avail c = Ok st -> In (c_bs c) block_sizes -> lenN pre = sizeof_sqfs_super_t ->
@@ -312,7 +313,8 @@ Print Assumptions open_image_unavailable.
 
 (* ---- the -X option string ----
    whatever the string (or NULL): the parser terminates within the fuel it is given, and either fails with a
-   diagnostic or returns a configuration whose fields are inside the documented ranges (lc + lp <= 4 included) ... *)
+   diagnostic or returns a configuration whose fields are inside the documented ranges (each of lc, lp <= 4; the JOINT bound lc + lp <= 4 is
+   NOT part of [opts_in_range] - independent audit 3, C1; the parser's own lc + lp test is a separate clause) ... *)
 Theorem comp_opt_string_total : forall fx id bs o, cfg_init_options fx id bs o <> PFuel.
 Proof. exact comp_opt_string_total_l. Qed.
 Print Assumptions comp_opt_string_total.
